@@ -188,6 +188,19 @@ def run(ctx):
         alt = rng.choice(FAMILY)
         other = l + ">>" + ".".join(ps + [alt]) if rng.random() < 0.5 or len(ps) < 2 else l + ">>" + ".".join(ps[:-1] + [alt])
         pairs.append((base, other))
+    # pairs that differ on BOTH sides, with sides of equal length that share molecules at other positions of the sorted normal form
+    for base in (rx[:80] if ctx.quick() else rx[:900]) + fam[:60]:
+        l, p = base.split(">>")
+        ls, ps = l.split("."), p.split(".")
+        if len(ls) + len(ps) < 3:
+            continue
+        ls2, ps2 = list(ls), list(ps)
+        ls2[rng.randrange(len(ls2))] = rng.choice(FAMILY); ps2[rng.randrange(len(ps2))] = rng.choice(FAMILY)
+        if rng.random() < 0.5:
+            rng.shuffle(ls2); rng.shuffle(ps2)
+        pairs.append((base, ".".join(ls2) + ">>" + ".".join(ps2)))
+    for a, b in [("CCCCCCO.CCCCO>>CCCCCCOC(C)=O.CCCCO", "CCCCO.CCO>>CCCCOC(C)=O.CCO"), ("CCCCCCO.CCCCO.CC(=O)Cl>>CCCCCCOC(C)=O.CCCCO.Cl", "CCCCO.CCO.CC(=O)Cl>>CCCCOC(C)=O.CCO.Cl")]:
+        pairs.append((a, b))
     for a, b in pairs:
         for method in ("pathway", "ecfp", "ecfp_inv"):
             ctx.evaluations += 1
